@@ -458,8 +458,14 @@ func cmdCheck(args []string) int {
 		for _, g := range gaps {
 			fmt.Println("  gap:", g)
 		}
-		for _, d := range deadPaths {
-			fmt.Println("  dead:", d)
+		deadBy := map[string]int{}
+		for _, ob := range mine {
+			if ob.Kind == "cover" && ob.Result == "unsat" {
+				deadBy[ob.Fn]++
+			}
+		}
+		for fn, n := range deadBy {
+			fmt.Printf("  dead: %s: %d return paths never reached under the precondition (details in evidence)\n", fn, n)
 		}
 	}
 	if violations > 0 {
